@@ -54,6 +54,8 @@ def u1(rep, f):
         c = strip(ce[0])
         if c is not None and c["k"] == "BinaryOperator" and c["op"] == "==":
             a, b = strip(c["c"][0]), c["c"][1]
+            if a is not None and a.get("n") != "fintMode" and strip(b) is not None and strip(b).get("n") == "fintMode":
+                a, b = strip(b), c["c"][0]          # FINT_LOOP == fintMode
             bs = strip(b)
             is_loop = enum_name(b) == "FINT_LOOP" or (bs is not None and "FINT_LOOP" in (bs.get("mac"), bs.get("imac")))
             if a is not None and a.get("n") == "fintMode" and is_loop:
